@@ -468,6 +468,14 @@ func c19GrpcCase(t *testing.T, ep string, admitted, fallback bool, handler strin
 		return nil
 	}
 
+	// what the configured fallback answers: an error of its own, or nil (graceful degradation: the caller is
+	// served something else and must not see a rejection) - the handler dimension is free on the blocked path
+	fbResult := func() error {
+		if handler == "ok" {
+			return nil
+		}
+		return c19ErrFallback
+	}
 	var err error
 	extra := ""
 	switch ep {
@@ -478,7 +486,7 @@ func c19GrpcCase(t *testing.T, ep string, admitted, fallback bool, handler strin
 			opts = append(opts, WithUnaryClientBlockFallback(
 				func(context.Context, string, interface{}, *grpc.ClientConn, *base.BlockError) error {
 					c.fallbackCalled()
-					return c19ErrFallback
+					return fbResult()
 				}))
 		}
 		interceptor := NewUnaryClientInterceptor(opts...)
@@ -497,7 +505,7 @@ func c19GrpcCase(t *testing.T, ep string, admitted, fallback bool, handler strin
 			opts = append(opts, WithStreamClientBlockFallback(
 				func(context.Context, *grpc.StreamDesc, *grpc.ClientConn, string, *base.BlockError) (grpc.ClientStream, error) {
 					c.fallbackCalled()
-					return nil, c19ErrFallback
+					return nil, fbResult()
 				}))
 		}
 		interceptor := NewStreamClientInterceptor(opts...)
@@ -522,7 +530,7 @@ func c19GrpcCase(t *testing.T, ep string, admitted, fallback bool, handler strin
 			opts = append(opts, WithUnaryServerBlockFallback(
 				func(context.Context, interface{}, *grpc.UnaryServerInfo, *base.BlockError) (interface{}, error) {
 					c.fallbackCalled()
-					return "c19 fallback resp", c19ErrFallback
+					return "c19 fallback resp", fbResult()
 				}))
 		}
 		interceptor := NewUnaryServerInterceptor(opts...)
@@ -547,7 +555,7 @@ func c19GrpcCase(t *testing.T, ep string, admitted, fallback bool, handler strin
 			opts = append(opts, WithStreamServerBlockFallback(
 				func(interface{}, grpc.ServerStream, *grpc.StreamServerInfo, *base.BlockError) error {
 					c.fallbackCalled()
-					return c19ErrFallback
+					return fbResult()
 				}))
 		}
 		interceptor := NewStreamServerInterceptor(opts...)
@@ -563,6 +571,10 @@ func c19GrpcCase(t *testing.T, ep string, admitted, fallback bool, handler strin
 
 	c.Response = c19ErrText(err)
 	c.DefaultRejectionSeen = c19IsBlockErr(err)
+	if !admitted && fallback {
+		// the caller must get exactly what the fallback answered
+		c.Body, c.FallbackBody, c.BodyChecked = c19ErrText(err), c19ErrText(fbResult()), true
+	}
 	if extra != "" {
 		c.Notes += "; " + extra
 	}
